@@ -37,17 +37,22 @@ var lexErrTails = []string{"\"x", "'q", "$(", "${x", "${", "`a", "$((1", "<<E\nb
 var parseErrMids = []string{" | | ", " ) ", " ;; ", " && && ", " } ", " fi ", "; ; ", " done ", " then ", "( ) ", " | & "}
 
 func (p c06) Gen(seed uint64, tier string, idx int) (*Case, bool) {
+	// curated short inputs: the COMPLETE schedule space is walked depth-first (capped)
+	dfs := 400
+	if tier == "thorough" {
+		dfs = 20000
+	}
 	cur := gen.Curated
 	if idx < len(cur) {
-		return &Case{Kind: "parse", Src: cur[idx], Reader: gosim.ReaderPlan{Kind: "scanner", FaultAt: -1}, Note: "curated"}, true
+		return &Case{Kind: "parse", Src: cur[idx], Reader: gosim.ReaderPlan{Kind: "scanner", FaultAt: -1}, Note: "curated", DFS: dfs}, true
 	}
 	idx -= len(cur)
 	if idx < len(gen.ArithCurated) {
-		return &Case{Kind: "eval", Src: gen.ArithCurated[idx], Vars: [][2]string{{"z", "5"}}, Note: "curated-eval"}, true
+		return &Case{Kind: "eval", Src: gen.ArithCurated[idx], Vars: [][2]string{{"z", "5"}}, Note: "curated-eval", DFS: dfs}, true
 	}
 	idx -= len(gen.ArithCurated)
 	if idx < len(c06Expand) {
-		return &Case{Kind: "expand", Src: c06Expand[idx], Vars: [][2]string{{"y", "7"}}, Note: "curated-expand"}, true
+		return &Case{Kind: "expand", Src: c06Expand[idx], Vars: [][2]string{{"y", "7"}}, Note: "curated-expand", DFS: dfs}, true
 	}
 	idx -= len(c06Expand)
 	src := gen.FromSeed(gosim.Mix(seed, 0xC06, uint64(idx)))
@@ -147,6 +152,7 @@ func (c06) build(src *gen.Source) *Case {
 			}
 		}
 		c.Note = "token-string"
+		c.DFS = 2000
 	}
 	return c
 }
